@@ -61,8 +61,32 @@ def noprov_programs(draw):
 
 
 @st.composite
+def twin_child_programs(draw):
+    """One parent whose children include the SAME call node more than once, reached through
+    different expressions (an argument given as a value or computed by another task): the repeats
+    are answered by CSE, and the parent's CallEdge rows list the child once per call."""
+    v = draw(st.integers(0, 3))
+    body = draw(st.sampled_from([["var", "a"], ["op", "add", ["var", "a"], ["lit", ["int", 1]]], ["list", [["var", "a"], ["lit", ["int", 7]]]]]))
+    plain = ["task", body, {"a": ["lit", ["int", v]]}, {}]
+    via_task = ["task", body, {"a": ["task", ["lit", ["int", v]], {}, {}]}, {}]
+    via_op = ["task", body, {"a": ["op", "add", ["task", ["lit", ["int", v]], {}, {}], ["lit", ["int", 0]]]}, {}]
+    kids = [plain] + draw(st.lists(st.sampled_from([via_task, via_op, plain]), min_size=1, max_size=3))
+    other = ["task", ["lit", ["int", 50 + v]], {}, {}]
+    inner = ["list", kids + ([other] if draw(st.booleans()) else [])]
+    shape = draw(st.sampled_from(["root", "in-task", "seq"]))
+    if shape == "in-task":
+        return ["list", [["task", inner, {}, {}], other]]
+    if shape == "seq":
+        return ["seq", kids]
+    return inner
+
+
+@st.composite
 def cases(draw):
-    fam = draw(st.sampled_from(["generic", "generic", "generic", "tags", "noprov"]))
+    fam = draw(st.sampled_from(["generic", "generic", "generic", "tags", "noprov", "twins"]))
+    if fam == "twins":
+        return {"family": fam, "prog": draw(twin_child_programs()), "d1": draw(st.lists(st.integers(0, 4), max_size=30)),
+                "d2": draw(st.lists(st.integers(0, 4), max_size=30)), "fine": draw(st.booleans()), "rerun": draw(st.booleans())}
     if fam == "generic":
         prog = draw(P.programs(max_depth=4, modes=("node", "node", "dnode"), errors=True))
     elif fam == "tags":
@@ -102,6 +126,31 @@ def has_nested_set(obj, top=True) -> bool:
         args = getattr(inner, "__dict__", {}).get("args"), getattr(inner, "__dict__", {}).get("kwargs")
         return any(has_nested_set(a, False) for a in args if a is not None)
     return any(has_nested_set(c, False) for _, c in kids)
+
+
+def has_equal_subobjects(obj) -> bool:
+    """Does the value contain two equal container sub-objects (candidates for having been ONE shared
+    object when the value was first hashed)?"""
+    seen = set()
+    dup = [False]
+
+    def walk(x, depth=0):
+        if dup[0] or depth > 8:
+            return
+        if isinstance(x, (list, tuple, dict, set, frozenset)):
+            key = (type(x).__name__, repr(x))
+            if key in seen:
+                dup[0] = True
+                return
+            seen.add(key)
+            for y in (list(x.values()) if isinstance(x, dict) else list(x)):
+                walk(y, depth + 1)
+        elif hasattr(x, "__dict__") and not isinstance(x, type):
+            for y in vars(x).values():
+                walk(y, depth + 1)
+
+    walk(obj)
+    return dup[0]
 
 
 def body_argument(session, call_hash):
@@ -223,6 +272,14 @@ def audit(case, backend, runs) -> dict:
             want = hash_struct(["TaskArguments", [h for _, h in pos], kw])
             if want != node.args_hash:
                 held = [backend.get_value(a.value_hash)[0] for a in arows]
+                if any(has_equal_subobjects(x) for x in held):
+                    # redun's value hash is a pickle hash and pickle memoises by identity: a value in
+                    # which one list is referenced twice hashes differently from an equal value with
+                    # two separate lists, and argument preprocessing rebuilds containers between the
+                    # two hashings. Not part of the statement (the Merkle check above uses the
+                    # recorded args_hash); skipped, and counted.
+                    stats["skipped_shared_subobject"] = stats.get("skipped_shared_subobject", 0) + 1
+                    continue
                 if any(has_nested_set(x) for x in held):
                     # a container holding a set hashes by set iteration order, which changes when
                     # the set is rebuilt between the two hashings: C16's (known) finding
